@@ -33,7 +33,7 @@ RULE = ('directed corpus (docstring examples; every one of the 35 sanitize keys 
         'level; aliasing; masks) then seeded random nested mappings of depth <= 4, width <= 5. '
         'non-trivial = a non-mapping argument, or a mapping with at least one sensitive str key, nested '
         'mapping or str value; distinct by (spec, secret, call style)')
-REQUIRED_CLAUSES = ['documented-keyword-call', 'key-list-cross-check', 'result-new-plain-dict', 'same-keys',
+REQUIRED_CLAUSES = ['retry-after-a-failed-call-on-the-same-object', 'documented-keyword-call', 'key-list-cross-check', 'result-new-plain-dict', 'same-keys',
                     'sensitive-key-masked', 'mapping-under-sensitive-key-recursed',
                     'nested-mapping-processed', 'non-dict-mapping-nested',
                     'string-through-mask_password', 'string-changed-by-mask_password',
@@ -66,7 +66,7 @@ _MY_UPPER = [k.upper() for k in MY_KEYS]
 _EXTRA_SRC = None
 _EXTRA = []          # keys present in the repository list but not in MY_KEYS (DONT-CARE zone)
 
-MTYPES = ['dict', 'odict', 'ddict', 'proxy', 'proxyc', 'custom', 'chain', 'lazy']
+MTYPES = ['dict', 'odict', 'ddict', 'proxy', 'proxyc', 'custom', 'chain', 'lazy', 'flaky', 'lru', 'readcount']
 SECRETS = [None, '***', '???', '', 'XXXX', '<redacted>', '*', 'hidden', 'secret=1', 'päss✓',
            'password']
 
@@ -113,6 +113,46 @@ class LazyMapping(PairsMapping):
         return 'LazyMapping(%r)' % (self._pairs,)
 
 
+class FlakyMapping(PairsMapping):
+    """The caller's own object fails once (a lazily loaded backend that hiccups): when armed, the n-th value lookup
+    raises OSError; after that it behaves.  What a later call on the same object returns must not depend on that."""
+    __slots__ = ('_countdown',)
+
+    def __init__(self, pairs):
+        PairsMapping.__init__(self, pairs)
+        self._countdown = None
+
+    def arm(self, n):
+        self._countdown = n
+
+    def __getitem__(self, key):
+        if self._countdown is not None:
+            self._countdown -= 1
+            if self._countdown <= 0:
+                self._countdown = None
+                raise OSError(5, 'backend hiccup (raised by the caller\'s own mapping)')
+        return PairsMapping.__getitem__(self, key)
+
+
+class LRU(collections.OrderedDict):
+    """The access-ordered OrderedDict recipe of the collections documentation: reading an entry through [] moves it
+    to the end.  items() does not read through []; a function that leaves its argument unmodified must not either."""
+
+    def __getitem__(self, key):
+        value = super().__getitem__(key)
+        self.move_to_end(key)
+        return value
+
+
+class ReadCounting(dict):
+    reads = 0
+
+    def __getitem__(self, key):
+        type(self).reads += 1
+        self.reads_here = getattr(self, 'reads_here', 0) + 1
+        return dict.__getitem__(self, key)
+
+
 class MyStr(str):
     pass
 
@@ -153,6 +193,7 @@ class Builder:
     def __init__(self):
         self.env = {}
         self.inner = []     # containers hidden behind proxies; snapshot them too
+        self.flaky = []     # mappings that can be armed to fail once
 
     def key(self, ks):
         t = ks[0]
@@ -224,6 +265,14 @@ class Builder:
                 return PairsMapping(base.items())
             if m == 'lazy':
                 return LazyMapping(base.items())
+            if m == 'flaky':
+                f = FlakyMapping(base.items())
+                self.flaky.append(f)
+                return f
+            if m == 'lru':
+                return LRU(base)
+            if m == 'readcount':
+                return ReadCounting(base)
             if m == 'proxyc':
                 inner = PairsMapping(base.items())
                 self.inner.append(inner)
@@ -442,6 +491,24 @@ def evaluate(ctx, case):
     arg_ids = container_ids(arg, set())
     for x in b.inner:
         container_ids(x, arg_ids)
+    # ---- a first call on the same object that fails for reasons of the caller's own (its mapping raises once; it
+    # passed secret=None): whatever that call did, the call that follows is judged like any other
+    import zlib
+    digest = zlib.crc32(case['spec'].encode())
+    if b.flaky:
+        for f in b.flaky:
+            f.arm(1 + digest % 3)
+        try:
+            strutils.mask_dict_password(arg) if secret is None else strutils.mask_dict_password(arg, secret)
+        except BaseException:  # noqa
+            ctx.clause('retry-after-a-failed-call-on-the-same-object')
+        for f in b.flaky:
+            f.arm(None)
+    elif digest % 7 == 0 and isinstance(arg, collections.abc.Mapping):
+        try:
+            strutils.mask_dict_password(arg, secret=None)
+        except BaseException:  # noqa
+            ctx.clause('retry-after-a-failed-call-on-the-same-object')
     try:
         if secret is None:
             got = strutils.mask_dict_password(arg)
